@@ -6,15 +6,15 @@ CONSTANTS
   Family = "cyl"
   NrC = 3
   NzC = 4
-  PZC = FALSE
+  PZC = TRUE
   DR = 4
   DZ = 4
   Z0P = 16
   Mode = "free"
-  R2S <- R2Sdef_t_cyl_free
+  R2S <- R2Sdef_dev_cylp_fallback
   ZStep = 1
   CentralRule = "halfopen"
-  SpanHandling = "central"
+  SpanHandling = "fallback"
   ZWeight = "count"
   Reading = "cells"
   SpanRule = "whole"
